@@ -9,6 +9,7 @@ import ClairModel.Model.Framing
     cut <k>                    stream = first k bytes, then EOF
     fail <k> <chunk> <mode>    stream = first k bytes in chunks, then a read error
     flip <pos> <xor>           (one-json) framing verdict of the feed with one byte changed
+    drive <fetch> <parse>      driveUpdater: what the store is asked and whether the run succeeds
 
   Loops: one-json | one-json-end | one-xml | one-xml-drain | lines | records | records-cvss.
 -/
@@ -91,6 +92,26 @@ def step (s : St) (l : String) : St × String :=
   | ["fail", k, c, _mode] =>
     match k.toNat?, c.toNat? with
     | some k, some c => (s, runLoop s.loop ⟨chunksOf c (s.plain.take k), .err⟩)
+    | _, _ => (s, "bad-op")
+  | ["drive", f, p] =>
+    let fetch : Option FetchOut :=
+      match f with
+      | "unchanged" => some .unchanged
+      | "failed" => some .failed
+      | "fetched" => some .fetched
+      | _ => none
+    let parse : Option (Res Unit) :=
+      match p with
+      | "ok" => some (.ok ())
+      | "err" => some .err
+      | _ => none
+    match fetch, parse with
+    | some fe, some pa =>
+      let out := drive fe pa
+      let call := match out.1 with
+        | .none => "none"
+        | .update _ => "update"
+      (s, s!"{call} {out.2}")
     | _, _ => (s, "bad-op")
   | ["flip", p, x] =>
     match p.toNat?, x.toNat? with
